@@ -24,7 +24,9 @@ def _model_text(s):
 
 def _check_z3(smt2, timeout_ms, seed=0, want_model=True, params=None):
     t0 = time.time()
-    s = z3.Solver()
+    # a fresh context per query: the answer (and the time) then depends on the query text only, not on which terms the
+    # process has built before (term numbering in the shared main context steers z3's instantiation order)
+    s = z3.Solver(ctx=z3.Context())
     s.set("timeout", timeout_ms)
     if seed:
         s.set("random_seed", seed)
